@@ -21,10 +21,13 @@
     ([C03_document_refs_resolve]); with the evaluator: every successful evaluation yields a
     document, and all its references resolve ([C03_evaluated_document_closed]). User-chosen map
     keys (property, header, media type, example names) may spell "$ref", but their values are
-    objects and are not references. The base document is merged in a separate model (Merge.v,
-    C14); the YAML re-parse clause is checked on the implementation only. *)
+    objects and are not references. With any base description (Model/BuilderBase.v, C14): every
+    reference in the generated parts of the document (the member "paths" and the schema
+    components) resolves in the merged document ([C03_document_with_base_refs_resolve]); what
+    the base carries outside these parts is the user's. The YAML re-parse clause is checked on
+    the implementation only. *)
 From Oal Require Import SpecUri SpecUriProofs.
-From Oal Require Eval ClosureProofs Builder BuilderProofs RefClosure.
+From Oal Require Eval ClosureProofs Builder BuilderProofs RefClosure BuilderBase BaseClosure.
 
 Theorem C03_path_params_match : forall segs,
   forallb wf_seg segs = true -> braces (pattern segs) None = path_params segs.
@@ -113,3 +116,17 @@ Example C03_document_with_a_reference :
   exists doc, Builder.document (fun _ => []) RefClosure.ex_table [[64; 97]%N] [] = Some doc /\
               RefClosure.jref_in (BuilderKeys.T_refprefix ++ [97%N]) doc /\ RefClosure.schema_names doc = [[97%N]].
 Proof. exact RefClosure.ex_doc_has_ref. Qed.
+
+(** with a base description: the references of the generated parts resolve in the merged document *)
+Theorem C03_document_with_base_refs_resolve : forall strs table names base rels doc,
+  BuilderBase.document_with_base strs table names base rels = Some doc ->
+  forall part t, In part (BaseClosure.generated_parts doc) -> RefClosure.jref_in t part -> RefClosure.resolves doc t.
+Proof. exact BaseClosure.document_with_base_refs_resolve. Qed.
+Print Assumptions C03_document_with_base_refs_resolve.
+
+Theorem C03_evaluated_document_with_base_closed : forall strs names P n rs rels table base,
+  Eval.eval_program false P n rs = Eval.Ok (rels, table) ->
+  exists doc, BuilderBase.document_with_base strs table names base rels = Some doc /\
+              forall part t, In part (BaseClosure.generated_parts doc) -> RefClosure.jref_in t part -> RefClosure.resolves doc t.
+Proof. exact BaseClosure.evaluated_document_with_base_closed. Qed.
+Print Assumptions C03_evaluated_document_with_base_closed.
